@@ -13,15 +13,16 @@ def reset(e):
 
 
 def cfg_text(procs, keys, maxops, maxnodes, top, fix=True, inflight=False,
-             invs=("NoDupKeys", "DeleteOnce", "QStruct", "NoMarkedLinked")):
-    return ("SPECIFICATION Spec\nCONSTANTS\n  Procs = {%s}\n  Keys = {%s}\n  MaxOps = %d\n  MaxNodes = %d\n  Top = %d\n  FIXK1 = %s\n  InFlightDelN = %s\n" %
-            (", ".join(procs), ", ".join(map(str, keys)), maxops, maxnodes, top, "TRUE" if fix else "FALSE", "TRUE" if inflight else "FALSE") +
+             invs=("NoDupKeys", "DeleteOnce", "QStruct", "NoMarkedLinked"), iters=()):
+    return ("SPECIFICATION Spec\nCONSTANTS\n  Procs = {%s}\n  IterProcs = {%s}\n  Keys = {%s}\n  MaxOps = %d\n  MaxNodes = %d\n  Top = %d\n  FIXK1 = %s\n  InFlightDelN = %s\n" %
+            (", ".join(list(procs) + list(iters)), ", ".join(iters), ", ".join(map(str, keys)), maxops, maxnodes, top, "TRUE" if fix else "FALSE", "TRUE" if inflight else "FALSE") +
             "".join("INVARIANT %s\n" % i for i in invs) + "CHECK_DEADLOCK FALSE\n")
 
 
 def trace_cfg(top, fix=True):
-    return ("SPECIFICATION TSpec\nCONSTANTS\n  Procs = {\"p1\", \"p2\", \"p3\", \"p4\", \"p5\", \"p6\"}\n  Keys = {}\n  MaxOps = 1000000\n  MaxNodes = 60\n"
-            "  Top = %d\n  InFlightDelN = TRUE\n  FIXK1 = %s\nINVARIANT NoDrift\nINVARIANT NoDupKeys\nINVARIANT DeleteOnce\nINVARIANT QStruct\nINVARIANT NoMarkedLinked\nCHECK_DEADLOCK TRUE\n"
+    return ("SPECIFICATION TSpec\nCONSTANTS\n  Procs = {\"p1\", \"p2\", \"p3\", \"p4\", \"p5\", \"p6\", \"it1\", \"it2\"}\n  IterProcs = {\"it1\", \"it2\"}\n  Keys = {}\n  MaxOps = 1000000\n  MaxNodes = 60\n"
+            "  Top = %d\n  InFlightDelN = TRUE\n  FIXK1 = %s\nINVARIANT NoDrift\nINVARIANT NoDupKeys\nINVARIANT DeleteOnce\nINVARIANT QStruct\nINVARIANT NoMarkedLinked\n"
+            "INVARIANT IterNoBackwards\nINVARIANT IterOnlyPresent\nINVARIANT IterSeekLands\nINVARIANT IterComplete\nCHECK_DEADLOCK TRUE\n"
             % (top, "TRUE" if fix else "FALSE"))
 
 
@@ -101,10 +102,10 @@ def setlin(ctx, tr, what, ntraces, record=True):
     raise Infra("SetLin validation ended unexpectedly: %s %s\n%s" % (r.kind, r.violated, r.out[-1500:]))
 
 
-def validate(ctx, tr, info, what, top, fine=True, fix=True):
+def validate(ctx, tr, info, what, top, fine=True, fix=True, lin=True):
     if info.get("failed"):
         raise Infra("%s: gate reported %s" % (what, info["failed"][:2]))
-    ok1 = setlin(ctx, tr, what, info["scenarios"])
+    ok1 = setlin(ctx, tr, what, info["scenarios"]) if lin else True
     ok2 = vlib.judge_trace(ctx, "SlQuiesce.tla", "Trace_SlQuiesce.cfg", tr, what + " [walk at quiescence]", 0, reset)
     ok3 = True
     if fine:
@@ -123,7 +124,8 @@ def validate(ctx, tr, info, what, top, fine=True, fix=True):
             first, sc = vlib.cut_scenario(tr, max(1, bad.get("line", 1)), reset)
             p = os.path.join(ctx.wd, "failing-trace.ndjson")
             open(p, "w").write("\n".join(sc) + "\n")
-            tag = {"QStruct": "C14", "NoMarkedLinked": "C04", "NoDupKeys": "C13", "DeleteOnce": "C13"}.get(bad.get("inv"), "C13")
+            tag = {"QStruct": "C14", "NoMarkedLinked": "C04", "NoDupKeys": "C13", "DeleteOnce": "C13", "IterNoBackwards": "C15",
+                   "IterOnlyPresent": "C15", "IterSeekLands": "C15", "IterComplete": "C15"}.get(bad.get("inv"), "C13")
             ctx.violation("%s:%s evaluated on the real execution (model state = real structure at every step) [%s]" % (tag, bad["msg"], what),
                           files=[p], meta={"trace_spec": "Trace_Skiplist.tla", "cfg": name, "driver": what})
             ok3 = False
